@@ -7,7 +7,7 @@ PROFILES = [('alu', 1), ('ssa', 1), ('hazard', 1), ('branch', 1), ('loops', 1), 
 
 def run(ctx):
     return syscheck.run(
-        ctx, 'C01', ['C01', 'C01_mvp4', 'C01_mvp5', 'C01_mvp60', 'C01_mvp61', 'C01_mvp62', 'C01_mvp63', 'C01_mvp63_fwd', 'C01_mvp70', 'C01_mvp70_fwd', 'C01_mvp71', 'C05_mvp3', 'C05_mvp4', 'C05_mvp5'], PROFILES, S.VARIANTS, n_quick=80, n_thorough=1500,
+        ctx, 'C01', ['C01', 'C01_mvp4', 'C01_mvp5', 'C01_mvp60', 'C01_mvp61', 'C01_mvp62', 'C01_mvp63', 'C01_mvp63_fwd', 'C01_mvp70', 'C01_mvp70_fwd', 'C01_mvp71', 'C01_mvp80', 'C05_mvp3', 'C05_mvp4', 'C05_mvp5'], PROFILES, S.VARIANTS, n_quick=80, n_thorough=1500,
         assumptions=['programs are generated terminating, aligned and in bounds; the sequential result comes from the OCaml extraction of Isa/Seq.v',
                      'theorems cover MVP-1/2 (faithful models) and the abstract policies; MVP-3..8 glue is covered by this differential inside the calibrated domains only (DESIGN.md section 6)'],
         text_rule='programs from 15 profiles (register-only, control flow, loops, loads/stores with hits, misses and evictions, store/load pairs, '
